@@ -247,12 +247,69 @@ def run_string_main(prov, how):
     return not bad, obs
 
 
+def run_nested(where, grepo):
+    """a load started from inside a callback of another load of the same meta-model (lazy loading of a library file): the outer load's unfinished
+    models are in the shared global repository while the nested main load runs; it must leave them alone"""
+    from textx import metamodel_from_str
+    from textx.scoping import providers as P
+
+    d = os.path.join(core.rundir(), "c17nest-%d" % os.getpid())
+    os.makedirs(d, exist_ok=True)
+    for fn, t in {"a.m": 'import "b.m" i a1 r b1 i a2 r l1 i a3 r a1', "b.m": "i b1 i b2 r b1", "lib.m": "i l1 i l2 r l1"}.items():
+        with open(os.path.join(d, fn), "w") as f:
+            f.write(t)
+    mm = metamodel_from_str("Model: imports*=Import items*=Item; Import: 'import' importURI=STRING; Item: 'i' name=ID ('r' ref=[Item])?;", global_repository=grepo)
+    inner = P.PlainNameImportURI()
+    libs = []
+
+    busy = []
+
+    def lib():
+        if not libs and not busy:
+            busy.append(1)
+            libs.append(mm.model_from_file(os.path.join(d, "lib.m")))
+        return libs[0] if libs else None
+
+    class Lazy(P.PlainNameImportURI):
+        def __call__(self, obj, attr, obj_ref):
+            r = inner.__call__(obj, attr, obj_ref)
+            if r is None and where == "scope-provider":
+                return next((x for x in lib().items if x.name == obj_ref.obj_name), None)
+            if r is None and libs:
+                return next((x for x in libs[0].items if x.name == obj_ref.obj_name), None)
+            return r
+    mm.register_scope_providers({"*.*": Lazy()})
+    if where == "model-processor":
+        mm.register_model_processor(lambda model, metamodel: lib() if os.path.basename(model._tx_filename or "") == "b.m" else None)
+    if where == "pre-callback":
+        pass
+    obs = {"nested_load_in": where, "global_repository": grepo}
+    bad = []
+    try:
+        if where == "pre-callback":
+            m = mm.model_from_file(os.path.join(d, "a.m"), pre_ref_resolution_callback=None) if False else None
+        if where == "match-processor":
+            mm.register_obj_processors({"ID": lambda x: (lib(), x)[1]})
+        m = mm.model_from_file(os.path.join(d, "a.m"))
+        names = [(i.name, getattr(i.ref, "name", None)) for i in m.items]
+        if names != [("a1", "b1"), ("a2", "l1"), ("a3", "a1")]:
+            bad.append(("references of the outer model", names))
+        if not libs or [(i.name, getattr(i.ref, "name", None)) for i in libs[0].items] != [("l1", None), ("l2", "l1")]:
+            bad.append(("the nested model",))
+        if m.items[1].ref is not libs[0].items[0]:
+            bad.append(("identity of the nested model's object",))
+    except Exception as e:
+        bad.append(("exception", "%s: %s" % (type(e).__name__, str(e).replace(d, "<dir>")[:140])))
+    obs["failures"] = bad[:3]
+    return not bad, obs
+
+
 def work_glob(arg):
     u = Unit()
     for order, grepo in arg:
         cid = ["string-main", order, grepo] if isinstance(order, str) else ["glob-two-languages", list(order), grepo]
         with watchdog(30):
-            ok, obs = run_string_main(order, grepo) if isinstance(order, str) else run_glob_case(order, grepo)
+            ok, obs = (run_nested(order[7:], grepo) if order.startswith("nested:") else run_string_main(order, grepo)) if isinstance(order, str) else run_glob_case(order, grepo)
         u.case(cid, nontrivial=True, sample=obs if isinstance(order, str) or list(order) == [1, 0, 3, 2, 4] else None)
         u.transitions += 1
         u.count("glob import over two languages")
@@ -302,6 +359,7 @@ def run(ctx):
 
     gl = [(o, gr) for o in itertools.permutations(range(len(GLOB_FILES))) for gr in (False, True)]
     gl += [(prov, how) for prov in ("PlainNameImportURI", "FQNImportURI") for how in ("absolute", "search-path")]
+    gl += [("nested:" + w, gr) for w in ("scope-provider", "model-processor", "match-processor") for gr in (False, True)]
     ctx.pmap(work_glob, [gl[i:i + 8] for i in range(0, len(gl), 8)])
     ctx.states = ctx.evaluations
     return {
@@ -314,6 +372,8 @@ def run(ctx):
 
 def replay(p):
     if "glob" in p:
+        if isinstance(p["glob"][0], str) and p["glob"][0].startswith("nested:"):
+            return run_nested(p["glob"][0][7:], p["glob"][1])
         if isinstance(p["glob"][0], str):
             return run_string_main(*p["glob"])
         return run_glob_case(tuple(p["glob"][0]), p["glob"][1])
